@@ -73,7 +73,9 @@ class TrafficRate(ExtendedCommunity):
         return value
 
     def __repr__(self) -> str:
-        return 'rate-limit:%d' % self.rate
+        # %d raises on the nan and infinities a peer can put in the IEEE float
+        rate = self.rate
+        return 'rate-limit:%d' % rate if rate == rate and abs(rate) != float('inf') else 'rate-limit:%s' % rate
 
     @classmethod
     def unpack_attribute(cls, data: Buffer, negotiated: Negotiated | None = None) -> TrafficRate:
@@ -111,7 +113,11 @@ class TrafficRatePackets(ExtendedCommunity):
         return max(value, 0.0)
 
     def __repr__(self) -> str:
-        return 'rate-limit:%d:packets' % self.rate
+        # %d raises on the nan and infinities a peer can put in the IEEE float
+        rate = self.rate
+        if rate == rate and abs(rate) != float('inf'):
+            return 'rate-limit:%d:packets' % rate
+        return 'rate-limit:%s:packets' % rate
 
     @classmethod
     def unpack_attribute(cls, data: Buffer, negotiated: Negotiated | None = None) -> TrafficRatePackets:
